@@ -680,11 +680,11 @@ func c16Bounds(c *Ctx, decs []*ssa.Function) {
 		desc := ""
 		switch x := node.(type) {
 		case *ast.IndexExpr:
-			at, desc = x.Lbrack, types.ExprString(x)
+			at, desc = x.Lbrack, c.P.exprStringAliased(fn, x)
 		case *ast.SliceExpr:
-			at, desc = x.Lbrack, types.ExprString(x)
+			at, desc = x.Lbrack, c.P.exprStringAliased(fn, x)
 		case *ast.CallExpr:
-			at, desc = x.Lparen, types.ExprString(x)
+			at, desc = x.Lparen, c.P.exprStringAliased(fn, x)
 		}
 		for _, b := range fn.Blocks {
 			for _, in := range b.Instrs {
